@@ -221,6 +221,13 @@ pub open spec fn opt_skip(o: Option<&Opts>) -> bool { match o { Some(x) => x.ski
 			state.game.hash is None,
 		ensures r.inv(), !r.hit_eof(),
 		decreases r.rest().len(),
+//@before if state.game.start.slippi.version.lt(3, 0)
+	let ghost pre_close = state;
+//@afterblock if state.game.start.slippi.version.lt(3, 0)
+	proof {
+		// C04: before 3.0 nothing closes the last frame but the end of the stream: afterwards every column has one entry per frame row
+		assert((all_closable(&pre_close) && (ver(&pre_close).ge(3, 0) ==> rows_level(&pre_close))) ==> rows_level(&state)) /*[C04.last_frame_closed_at_end_of_stream]*/;
+	}
 //@before match r.read_u8()
 	proof { assert(!r.hit_eof()) /*[C07.no_eof_swallowed_before_tail]*/; }
 //@before state.game.hash =
